@@ -70,36 +70,36 @@ type Interp struct {
 }
 
 type PathState struct {
-	prefix        []int // decisions to replay
-	trace         []int // decisions taken so far
-	arity         []int // arity of each decision (2 = binary)
-	steps         int
-	depth         int
-	globals       map[*ssa.Global]*value
-	copied        map[*ssa.Package]bool
-	copyMemo      map[interface{}]interface{}
-	inputs        []*Term        // symbolic inputs in creation order
-	inputNames    map[string]int // occurrence counters
-	pcSize        int
-	covers        []string
-	events        []string             // bound cuts etc.
-	hashApps      map[string][]hashApp // UF name -> applications (for axioms)
-	forks         []pendingFork
-	mutexes       map[*value]int
-	initMode      bool
-	funcsSeen     map[*ssa.Function]int
-	choiceNames   []string
-	storedGlobals map[*ssa.Global]bool
-	obligs        int
-	violations    []Violation
-	usedUF        bool
-	backings      [][]value
-	hashPending   map[string][]hashApp // concrete points not yet asserted, per UF name
-	hashSymSeen   map[string]bool
-	learned       map[*Term]interval
+	prefix         []int // decisions to replay
+	trace          []int // decisions taken so far
+	arity          []int // arity of each decision (2 = binary)
+	steps          int
+	depth          int
+	globals        map[*ssa.Global]*value
+	copied         map[*ssa.Package]bool
+	copyMemo       map[interface{}]interface{}
+	inputs         []*Term        // symbolic inputs in creation order
+	inputNames     map[string]int // occurrence counters
+	pcSize         int
+	covers         []string
+	events         []string             // bound cuts etc.
+	hashApps       map[string][]hashApp // UF name -> applications (for axioms)
+	forks          []pendingFork
+	mutexes        map[*value]int
+	initMode       bool
+	funcsSeen      map[*ssa.Function]int
+	choiceNames    []string
+	storedGlobals  map[*ssa.Global]bool
+	obligs         int
+	violations     []Violation
+	usedUF         bool
+	backings       [][]value
+	hashPending    map[string][]hashApp // concrete points not yet asserted, per UF name
+	hashSymSeen    map[string]bool
+	learned        map[*Term]interval
 	sigs           map[*Term]*sigProv
 	forbidReported map[string]bool
-	rangeCache    map[*Term]interval
+	rangeCache     map[*Term]interval
 }
 
 type hashApp struct {
